@@ -112,7 +112,9 @@ fn lab_scenario(rng: &mut Rng, n_inputs: usize) -> Lab {
     let d = small(rng);
     let s = small(rng);
     let big = |x: u128| -> u64 { (x % TWO64) as u64 };
-    match rng.below(22) {
+    match rng.below(24) {
+        22 => Lab { name: "forged-without-mint", spent: vec![], mint: 0, produced: vec![k], sibling_produced: 0, sibling_spent: 0 },
+        23 => Lab { name: "vanishes-without-burn", spent: vec![k], mint: 0, produced: vec![], sibling_produced: 0, sibling_spent: 0 },
         18 => Lab { name: "sibling-name-forged(policy-spent)", spent: vec![k], mint: 0, produced: vec![k], sibling_produced: d, sibling_spent: 0 },
         19 => Lab { name: "sibling-name-forged(policy-minted)", spent: vec![], mint: k as i128, produced: vec![k], sibling_produced: d, sibling_spent: 0 },
         20 => Lab { name: "sibling-name-vanishes", spent: vec![k], mint: 0, produced: vec![k], sibling_produced: 0, sibling_spent: d },
@@ -337,7 +339,19 @@ fn gen_case(rng: &mut Rng, f: &Fixture) -> Option<Case> {
         }
     };
     let tx = if family == "unbalanced" { tx } else { top_up_fee(f, tx, &mut utxo)? };
-    Some(Case { family, scenario, tx: f.resign(&tx), utxo })
+    let mut tx = f.resign(&tx);
+    let mut scenario = scenario;
+    // a share of the post-Alonzo cases carries the phase-2 validity flag set to false: value is
+    // conserved by an accepted transaction whatever the flag says
+    if rng.chance(1, 5) {
+        if let Ok(it) = pv::cbor::parse(&tx) {
+            if it.major == 4 && it.children.len() == 4 && it.children[2].major == 7 && tx[it.children[2].start] == 0xf5 {
+                tx[it.children[2].start] = 0xf4;
+                scenario.push_str(" [valid=false]");
+            }
+        }
+    }
+    Some(Case { family, scenario, tx, utxo })
 }
 
 fn gen_byron(rng: &mut Rng, f: &Fixture) -> Option<Case> {
